@@ -73,7 +73,7 @@ def pinned_keys(seed):
 def pinned_srp(a: int):
     from aiohomekit.crypto import srp as lib
 
-    orig = lib.Srp.generate_private_key
+    orig = lib.Srp.__dict__["generate_private_key"]  # the descriptor itself (a staticmethod): what getattr returns would come back as an instance method
     lib.Srp.generate_private_key = staticmethod(lambda: a)
     try:
         yield
